@@ -5268,3 +5268,114 @@ func c06AckLowerBound(c *Ctx) {
 		c.Check(ParamV("initialPN")(w.Val), R, "origin:firstPN is the number the generator starts with", c.P.InstrPos(w.Instr), "the same initialPN that seeds the packet number generator")
 	}
 }
+
+// C17.20: a UDP socket the package opens itself is closed on every error return of the function that opened it: in
+// each function of the root package that calls net.ListenUDP (or the listenUDP wrapper), every path from the call to
+// a return with a non-nil error passes Close on that socket or Close on the Transport that took it over. (The
+// wrapper itself returns the socket.) Until a Transport owns the socket nobody else can release it.
+func c17OpenedSocketClosedOnError(c *Ctx) {
+	const R = "C17.20"
+	trClose := c.obj("", "Transport", "Close")
+	n := 0
+	for _, f := range c.P.ScopeFuncs() {
+		if f.Pkg == nil || f.Pkg.Pkg.Name() != "quic" || f.Parent() != nil {
+			continue
+		}
+		var opens []*ssa.Call
+		eachInstr(f, func(in ssa.Instruction) {
+			cl, ok := in.(*ssa.Call)
+			if !ok || in.Parent() != f {
+				return
+			}
+			sc := cl.Call.StaticCallee()
+			if sc == nil {
+				return
+			}
+			if (sc.Name() == "ListenUDP" && sc.Pkg != nil && sc.Pkg.Pkg.Path() == "net") || (sc.Name() == "listenUDP" && sc.Pkg == f.Pkg) {
+				opens = append(opens, cl)
+			}
+		})
+		for _, op := range opens {
+			op := op
+			// the wrapper that returns the socket to its caller is not an owner
+			returnsSocket := false
+			eachInstr(f, func(in ssa.Instruction) {
+				if r, ok := in.(*ssa.Return); ok {
+					for _, v := range retResults(r) {
+						if v == ssa.Value(op) {
+							returnsSocket = true
+						}
+						if ex, ok := v.(*ssa.Extract); ok && ex.Tuple == ssa.Value(op) && ex.Index == 0 {
+							returnsSocket = true
+						}
+					}
+				}
+			})
+			if returnsSocket {
+				continue
+			}
+			n++
+			sock := func(v ssa.Value) bool {
+				v = stripConv(v)
+				if mi, ok := v.(*ssa.MakeInterface); ok {
+					v = mi.X
+				}
+				// promoted method of an embedded struct: (*net.conn).Close(&sock.conn)
+				if fa, ok := v.(*ssa.FieldAddr); ok {
+					v = fa.X
+				}
+				ex, ok := v.(*ssa.Extract)
+				return ok && ex.Tuple == ssa.Value(op) && ex.Index == 0
+			}
+			closes := func(in ssa.Instruction) bool {
+				cl, ok := in.(ssa.CallInstruction)
+				if !ok {
+					return false
+				}
+				cc := cl.Common()
+				if CallsTo(trClose)(in) {
+					return true
+				}
+				name := ""
+				var recv ssa.Value
+				if cc.IsInvoke() {
+					name, recv = cc.Method.Name(), cc.Value
+				} else if sc := cc.StaticCallee(); sc != nil && len(cc.Args) > 0 {
+					name, recv = sc.Name(), cc.Args[0]
+				}
+				return name == "Close" && recv != nil && sock(recv)
+			}
+			errReturn := func(in ssa.Instruction) bool {
+				r, ok := in.(*ssa.Return)
+				if !ok {
+					return false
+				}
+				rs := retResults(r)
+				return len(rs) > 0 && !IsNil()(rs[len(rs)-1])
+			}
+			// paths start on the success edge of the open (err == nil)
+			var starts []*ssa.BasicBlock
+			for _, b := range f.Blocks {
+				ifi, ok := b.Instrs[len(b.Instrs)-1].(*ssa.If)
+				if !ok {
+					continue
+				}
+				isErr := func(v ssa.Value) bool {
+					ex, ok := v.(*ssa.Extract)
+					return ok && ex.Tuple == ssa.Value(op) && ex.Index == 1
+				}
+				for s := 0; s < 2; s++ {
+					if EdgeImplies(ifi, s, Rel{Op: token.EQL, X: isErr, Y: IsNil()}, false) {
+						starts = append(starts, b.Succs[s])
+					}
+				}
+			}
+			if !c.Check(len(starts) > 0, R, "shape:"+f.Name()+" tests the error of opening the socket", c.P.InstrPos(op), "if err != nil after ListenUDP") {
+				continue
+			}
+			c.cut(R, "release:"+f.Name()+" closes the socket it opened on every error return", &Cut{Fn: f, StartBlocks: starts, Target: errReturn, Barrier: closes, NoInline: true},
+				"an address that does not resolve, a nil tls.Config or a failing Listen returned an error and left the UDP socket (and its port) open for the life of the process")
+		}
+	}
+	c.Floor(R, "functions of the root package that open a UDP socket and own it", n, 4)
+}
